@@ -131,12 +131,20 @@ class Acc:
         vs = run_monitors(r, props) + list(extra_viol)
         if callable(cls):
             cls = cls(r)
+        perkey: dict[str, int] = {}
+        ctrace = None
         for v in vs:
+            perkey[v["key"]] = perkey.get(v["key"], 0) + 1
+            if perkey[v["key"]] > 2:  # keep two witnesses per mechanism class and execution, count the rest
+                o["obs"]["violations_beyond_two_per_class_and_execution"] = o["obs"].get("violations_beyond_two_per_class_and_execution", 0) + 1
+                continue
             v = dict(v)
             c = dict(self.case)
             c["exact_scenario"] = strip_scenario(sc or r["scenario"])
             v["case"] = c
-            v["trace"] = compact_trace(r)
+            if ctrace is None:
+                ctrace = compact_trace(r)
+            v["trace"] = ctrace
             o["violations"].append(v)
         for k, v in (r.get("stats") or {}).items():
             o["obs"][k] = o["obs"].get(k, 0) + v
